@@ -119,28 +119,20 @@ func (e *refEvent) String() string {
 	return fmt.Sprintf("b%d/tx%d/ev%d from=%s keys=[%s]", e.Block, e.TxIndex, e.EvIndex, e.Ev.From.String(), strings.Join(ks, ","))
 }
 
-var (
-	refMu   sync.Mutex
-	refMemo = map[*chain.Entry][]*refEvent{}
-)
+var refMemo sync.Map // *chain.Entry -> []*refEvent
 
 // refEventsOf lists the events of one reference block in protocol order, read from the receipts.
 func refEventsOf(e *chain.Entry) []*refEvent {
-	refMu.Lock()
-	out, ok := refMemo[e]
-	refMu.Unlock()
-	if ok {
-		return out
+	if v, ok := refMemo.Load(e); ok {
+		return v.([]*refEvent)
 	}
-	out = []*refEvent{}
+	out := []*refEvent{}
 	for ti, rc := range e.Block.Receipts {
 		for ei, evt := range rc.Events {
 			out = append(out, &refEvent{Block: e.Block.Number, Hash: e.Block.Hash, TxHash: rc.TransactionHash, TxIndex: uint(ti), EvIndex: uint(ei), Ev: evt})
 		}
 	}
-	refMu.Lock()
-	refMemo[e] = out
-	refMu.Unlock()
+	refMemo.Store(e, out)
 	return out
 }
 
@@ -193,7 +185,10 @@ func allFilters(thorough bool) []filter {
 	}
 	var out []filter
 	for _, as := range addrSets {
-		for _, pt := range pats {
+		for pi, pt := range pats {
+			if len(as) == 1 && as[0] == kC && pi > 1 {
+				continue // the silent address: only with no pattern and with [[]]
+			}
 			f := filter{}
 			var an []string
 			for _, a := range as {
@@ -262,25 +257,34 @@ func (f *filter) matches(e *core.Event, strictLen bool) bool {
 	return true
 }
 
-// naive scans the reference chain.
-func naive(ch []*chain.Entry, f *filter, from, to uint64, strictLen bool) []*refEvent {
+// allEvents lists every event of the reference chain in chain order (the receipts, block by block).
+func allEvents(ch []*chain.Entry) []*refEvent {
 	out := []*refEvent{}
-	for n := from; n <= to && n < uint64(len(ch)); n++ {
-		for _, e := range refEventsOf(ch[n]) {
-			if f.matches(e.Ev, strictLen) {
-				out = append(out, e)
-			}
+	for _, e := range ch {
+		if len(e.Block.Receipts) > 0 {
+			out = append(out, refEventsOf(e)...)
+		}
+	}
+	return out
+}
+
+// naive scans the reference events (all, in chain order) for those in [from,to] that match f.
+func naive(all []*refEvent, f *filter, from, to uint64, strictLen bool) []*refEvent {
+	out := []*refEvent{}
+	for _, e := range all {
+		if e.Block >= from && e.Block <= to && f.matches(e.Ev, strictLen) {
+			out = append(out, e)
 		}
 	}
 	return out
 }
 
 // endpoints: the block numbers used as range ends in a state with head h: the chain start, the 8192
-// window boundary (both sides), and the last blocks up to one past the head.
+// window boundary (both sides), and the last three blocks up to one past the head.
 func endpoints(h uint64) []uint64 {
 	w := core.NumBlocksPerFilter
-	cand := []uint64{0, 1, w - 2, w - 1, w, w + 1, h + 1}
-	for d := uint64(0); d <= 3; d++ {
+	cand := []uint64{0, w - 1, w, h + 1}
+	for d := uint64(0); d <= 2; d++ {
 		if h >= d {
 			cand = append(cand, h-d)
 		}
